@@ -142,14 +142,17 @@ Section Buckets.
     flat_map (fun kp => map (fun r => (match fst r with [] => fst kp | sfx => fst kp ++ [46] ++ sfx end, snd r))
                             (pflush (snd kp))) ks.
 
-  (* Flush cutoff: the buckets up to cutoff, in order, each as the list of (name, value) it reports *)
-  Fixpoint flush (bs : list bucket) (cutoff : N) : list (N * list (bytes * F)) * list bucket :=
+  (* Flush cutoff: walk the ordered list while ts <= cutoff; those buckets are reported and removed *)
+  Fixpoint split_flush (bs : list bucket) (cutoff : N) : list bucket * list bucket :=
     match bs with
     | [] => ([], [])
     | (q, ks) :: bs' =>
         if cutoff <? q then ([], bs)
-        else let '(out, rest) := flush bs' cutoff in ((q, emit_bucket ks) :: out, rest)
+        else let '(fl, rest) := split_flush bs' cutoff in ((q, ks) :: fl, rest)
     end.
+
+  Definition flush (bs : list bucket) (cutoff : N) : list (N * list (bytes * F)) * list bucket :=
+    let '(fl, rest) := split_flush bs cutoff in (map (fun b => (fst b, emit_bucket (snd b))) fl, rest).
 
   Inductive aevent :=
   | APoint (key : bytes) (v : F) (ts : N) (now : N)      (* a point whose expanded output name is key *)
